@@ -15,7 +15,18 @@ class Driver:
         exe = os.path.join(paths.OCAML, 'driver')
         if not os.path.exists(exe):
             raise ModelUnavailable('no driver binary')
-        self.p = subprocess.Popen([exe], stdin=subprocess.PIPE, stdout=subprocess.PIPE)
+        def _big_stack():
+            import resource
+            try:
+                resource.setrlimit(resource.RLIMIT_STACK, (resource.RLIM_INFINITY, resource.RLIM_INFINITY))
+            except Exception:
+                try:
+                    soft, hard = resource.getrlimit(resource.RLIMIT_STACK)
+                    resource.setrlimit(resource.RLIMIT_STACK, (hard, hard))
+                except Exception:
+                    pass
+        # the extracted functions over char lists are not tail recursive: large requests need a large stack
+        self.p = subprocess.Popen([exe], stdin=subprocess.PIPE, stdout=subprocess.PIPE, preexec_fn=_big_stack)
         self.log = []      # (request bytes, reply bytes) kept for the in-Coq cross-check
         self.keep = 400
         self.calls = 0
